@@ -267,6 +267,7 @@ def handle (cmd : String) (args : List String) : String :=
   | "flow", toks => (flowRun toks).getD "bad-op"
   | "sched", toks => (schedRun toks).getD "bad-op"
   | "h2sm", toks => (smRun toks).getD "bad-op"
+  | "h2smrif", toks => (smRunSpec toks).getD "bad-op"
   | "h2conc", toks => (h2concCheck toks).getD "bad-op"
   | "h2fp", toks => (h2fpRun true toks).getD "bad-op"
   | "h2fpm", toks => (h2fpRun false toks).getD "bad-op"
